@@ -80,7 +80,7 @@ Next ==
                     /\ drift' = IF d = {} THEN drift ELSE Append(drift, [line |-> l, id |-> run.id, what |-> SetToSeq(d)])
                     /\ run' = IF d = {} THEN run ELSE [run EXCEPT !.live = FALSE]
           [] e.ev = "Call" /\ run.live ->
-               IF e.ret # "ok" /\ e.op \in {"header", "message", "close", "metadata"}
+               IF e.ret # "ok" /\ e.op \in {"header", "message", "close", "metadata"} /\ ~("refused" \in DOMAIN e /\ e.refused)
                THEN run' = [run EXCEPT !.live = FALSE] /\ UNCHANGED <<w, drift>>     \* an unexpected error: judged by the property layer
                ELSE LET w2 == IF e.ret = "ok" THEN StepCall(run, w, e) ELSE w
                         d == ProjDiff(w2, e.st) IN
